@@ -44,7 +44,7 @@ ASSUMPTIONS = [
     'repetition counts are small positive integers in generated cases (the theorems are for all counts)',
 ]
 MANIFEST = {
-    'level_text': 'Proof: 54 unbounded theorems over an executable Coq model of waveforms.py: vectorised sampler = pointwise '
+    'level_text': 'Proof: 61 unbounded theorems over an executable Coq model of waveforms.py: vectorised sampler = pointwise '
                   'meaning on every sorted grid (all 11 classes); constant_value sound on [0,duration) for all classes; '
                   '__eq__ => same behaviour; reversed()/double reversal laws; totality REFUTED on the unchanged code '
                   '(sequence/repetition at t=duration, reversal around them, chained parallel+linear KeyError) and proved under '
@@ -57,7 +57,9 @@ MANIFEST = {
                   'forwarded channel - refuted without that guard); code meaning = DESIGN 4.4 denotation for leaf-only reversal '
                   'incl. transformations, and for reversal anywhere (mirror law) away from the junctions an executable parity '
                   'guard excludes. Not proved (only tested through the denotational oracle): the composed statement over '
-                  'construction recipes and get_subset in general (both refuted unguarded at t=0 below reversed sequences), '
+                  'construction recipes (refuted unguarded at t=0 below reversed sequences; every single constructor incl. the '
+                  'well-formedness of its result is proved). get_subset_for_channels is proved for all classes under a guard that '
+                  'excludes ReversedWaveform at its local time 0 (refuted there), '
                   'mirror law with transformations below a reversal. The model (incl. a state machine for the '
                   'TransformingWaveform cache) is tied to /repo by an exact correspondence check, an independent denotation '
                   '(DESIGN 4.4) on generated waveform trees, and a decimal-duration stream compared under tolerance 2^-30.',
